@@ -154,7 +154,7 @@ impl TraitHandler for HashEnumHandler {
 
         let (impl_generics, ty_generics, where_clause) = generics.split_for_impl();
 
-        let hasher_ident = super::hasher_ident(&ast.generics);
+        let hasher_ident = super::hasher_ident(ast);
 
         token_stream.extend(quote! {
             impl #impl_generics ::core::hash::Hash for #ident #ty_generics #where_clause {
